@@ -230,6 +230,21 @@ static int execute(uint64_t seed, int scn, const Fault& f, std::vector<std::stri
       else if (F == "memory.oom.group") q("oom_group", c.oom_group().has_value());
     }
   }
+  // a counter that could not be sampled in the faulted tick has NO previous-tick sample in the tick after it: with the
+  // fault lifted, its per-tick rate is unavailable (pgscan) / zero (io cost) - not a delta over several ticks
+  if ((f.kind == "absent" || f.kind == "empty" || f.kind == "unreadable" || f.kind == "readfail") && (f.file == "memory.stat" || f.file == "io.stat")) {
+    inFault = false;
+    busy = true; S.render(3); busy = false;
+    oomd.ctx_.refresh();
+    for (const char* cg : {"w1", "w2/c1"}) {
+      auto oc = oomd.ctx_.addToCacheAndGet(Oomd::CgroupPath(S.fs.root(), cg));
+      if (!oc) continue;
+      const Oomd::CgroupContext& c = oc->get();
+      bool guessed = f.file == "memory.stat" ? c.pg_scan_rate().has_value() : (c.io_cost_rate().value_or(0) != 0);
+      evEmit(J().str("e", "StatQuery").str("file", f.file).str("kind", f.kind).str("field", f.file == "memory.stat" ? "pg_scan_rate_after_gap" : "io_cost_rate_after_gap")
+                 .str("cg", cg).boolean("avail", guessed));
+    }
+  }
   inFault = false;
   alarm(0);
   I.onOpen = nullptr; I.onOpened = nullptr; I.onKill = nullptr;
